@@ -477,6 +477,10 @@ func (m *model) judge(s *snap, r *Recovered) *verdict {
 						tInt, ok2 := m.rec.TGOf[iv]
 						if ok1 && ok2 && tEff != tInt && m.rec.H.Mode == "background" && !s.tgIntact(tEff) {
 							splitInter = true
+						} else if skipFrom := walStopsAt(s); ok1 && skipFrom != 0 && tEff >= skipFrom {
+							// listed defect F-WALSKIP: replay stopped before the request's transaction, so the slot
+							// keeps what the interrupted primary writes had put there
+							v.add(&v.C02, "known", "F-WALSKIP", fmt.Sprintf("%s: %s interval %d holds A=%d, an overwritten row of in-flight request %d (its last row for the interval is %d): replay stopped at transaction %d, which names a file of a destroyed bucket, before the request's transaction %d", where, sk.Key, sk.Slot, row[2], x.W.ID, x.V, skipFrom, tEff))
 						} else {
 							v.add(&v.C02, "violation", "", fmt.Sprintf("%s: %s interval %d holds A=%d, an overwritten row of in-flight request %d (its last row for the interval is %d)", where, sk.Key, sk.Slot, row[2], x.W.ID, x.V))
 						}
